@@ -753,7 +753,15 @@ static void comp_case(uint64_t idx, void *vctx)
     for (int y = 0; y < H; y++) for (int x = 0; x < W; x++) { int v = timg_get(&Mk, x, y); if (v) covered = 1; if (v < mg.maxv || mg.bpp == 1) partial = 1; }
     if (covered && partial) vf_count_nontrivial(1);
     if (!vf_in_confirm) vf_outcome(vf_hash64(D1i.bits, (size_t)D1i.stride * H, 1000 + d[1]));
-    if (!timg_same(&D1i, &D2i)) {
+    int same = timg_same(&D1i, &D2i);
+    if (!same && tl->n == 0) {
+        /* An empty list is not "a trapezoid": the statement does not say whether the operator is then applied with an all-zero
+         * mask (B) or the call is a no-op (what the X Render protocol does).  Either is accepted; anything else is not. */
+        timg D0; timg_init(&D0, c->dfmt, W, H); fill_dst(&D0); set_clip(D0.pi, d[3], W, H);
+        same = timg_same(&D1i, &D0);
+        timg_fini(&D0);
+    }
+    if (!same) {
         char a[700], b[700], m[300];
         /* Known defect, narrowly: for operators where a zero source has an effect the library composites a destination-sized
          * box of the *trapezoid* coordinate space, [0,W)x[0,H), placed at (x_dst,y_dst), instead of the whole destination.
